@@ -1116,6 +1116,7 @@ class Repo:
         names = list(SRC_MODULES) + (list(GENERATED_MODULES) if with_generated else [])
         self._trees = {}
         self.merged = self._merge_private_modules()
+        self.debug_writers = self._canonical_debug_writer()
         for name in names:
             p = os.path.join(self.srcdir, name + '.py')
             if not os.path.isfile(p):
@@ -1138,6 +1139,128 @@ class Repo:
                 raise AnalysisError('cannot parse %s: %s' % (os.path.relpath(p, self.root), e))
         return self._trees[name]
 
+    def _canonical_debug_writer(self):
+        """The methods of the compiler-side classes that write a debug message - the whole body is one test of a debug flag
+        (an attribute whose name contains ``debug``) around writes, with a ``*args`` parameter - are known to the analyses
+        as ``_debug``: when they carry another name, definition and uses (``X.<name>(..)``) are renamed.  -> old names"""
+        found = set()
+        mods = [n for n in self._texts if n not in ('engine', '__init__')]
+        for n in mods:
+            for c in [x for x in ast.walk(self.parsed(n)) if isinstance(x, ast.ClassDef)]:
+                for m in c.body:
+                    if not (isinstance(m, ast.FunctionDef) and m.args.vararg is not None and len(m.args.args) == 1 and not m.decorator_list):
+                        continue
+                    body = [st for st in m.body if not (isinstance(st, ast.Expr) and isinstance(st.value, ast.Constant))]
+                    if len(body) == 1 and isinstance(body[0], ast.If) and not body[0].orelse and \
+                            any(isinstance(x, ast.Attribute) and 'debug' in x.attr for x in ast.walk(body[0].test)) or \
+                            (len(body) == 1 and isinstance(body[0], ast.If) and not body[0].orelse and
+                             any(isinstance(x, ast.Call) and isinstance(x.func, ast.Name) and x.func.id == 'getattr' and len(x.args) > 1 and
+                                 ((isinstance(x.args[1], ast.Constant) and 'debug' in str(x.args[1].value)) or 'debug' in ast.unparse(x.args[1]))
+                                 for x in ast.walk(body[0].test))):
+                        if not any(isinstance(x, (ast.Return, ast.Yield)) and getattr(x, 'value', None) is not None for x in ast.walk(body[0])):
+                            found.add(m.name)
+        renamed = sorted(found - {'_debug'})
+        if not renamed:
+            return []
+        for n in mods:
+            t = self.parsed(n)
+            if any(isinstance(x, ast.FunctionDef) and x.name == '_debug' for x in ast.walk(t)) and '_debug' not in found:
+                return []          # something else is called _debug already
+        for n in mods:
+            for x in ast.walk(self.parsed(n)):
+                if isinstance(x, ast.FunctionDef) and x.name in renamed:
+                    x.name = '_debug'
+                elif isinstance(x, ast.Attribute) and x.attr in renamed:
+                    x.attr = '_debug'
+        return renamed
+
+    def _merge_private_module_groups(self, extras):
+        """Several new modules that import each other and are all reached, through top-level ``from .x import ..`` statements
+        (names or *), from exactly one of the known modules: their statements are pasted into that module in import order
+        (each module once, where it is first imported).  -> {merged module: host}"""
+        if len(extras) < 2:
+            return {}
+
+        def imports_of(name):
+            out = []
+            for st in self.parsed(name).body:
+                if isinstance(st, ast.ImportFrom) and st.level == 1 and st.module in extras:
+                    out.append(st.module)
+            return out
+        roots = {}
+        for r in SRC_MODULES:
+            if r not in self._texts:
+                continue
+            seen, stack = set(), list(imports_of(r))
+            while stack:
+                x = stack.pop()
+                if x in seen:
+                    continue
+                seen.add(x)
+                stack.extend(imports_of(x))
+            for x in seen:
+                roots.setdefault(x, set()).add(r)
+        group = {x for x in extras if len(roots.get(x, ())) == 1}
+        if len(group) < 2:
+            return {}
+        merged = {}
+        for host in sorted({next(iter(roots[x])) for x in group}):
+            mine = {x for x in group if roots[x] == {host}}
+            # only imports at top level, no other mention of the module names, no __all__
+            ok = True
+            for n in list(mine) + [host]:
+                t = self.parsed(n)
+                for st in ast.walk(t):
+                    if isinstance(st, ast.ImportFrom) and st.level == 1 and st.module in mine and st not in t.body:
+                        ok = False
+                    if isinstance(st, ast.Import) and any(a.name.split('.')[-1] in mine for a in st.names):
+                        ok = False
+                if n in mine and any(isinstance(st, ast.Assign) and any(isinstance(tg, ast.Name) and tg.id == '__all__' for tg in st.targets) for st in t.body):
+                    ok = False
+            for other, text in self._texts.items():
+                if other != host and other not in mine and any(re.search(r'\b%s\b' % re.escape(x), text) for x in mine):
+                    ok = False
+            if not ok:
+                continue
+            done = set()
+
+            def expand(name):
+                out = []
+                for st in self.parsed(name).body:
+                    if isinstance(st, ast.ImportFrom) and st.level == 1 and st.module in mine:
+                        if st.module not in done:
+                            done.add(st.module)
+                            out.extend(expand(st.module))
+                        for a in st.names:
+                            if a.asname and a.asname != a.name and a.name != '*':
+                                al = ast.copy_location(ast.Assign(targets=[ast.Name(id=a.asname, ctx=ast.Store())], value=ast.Name(id=a.name, ctx=ast.Load())), st)
+                                ast.fix_missing_locations(al)
+                                out.append(al)
+                        continue
+                    if name != host and ((isinstance(st, ast.Expr) and isinstance(st.value, ast.Constant)) or
+                                         (isinstance(st, ast.ImportFrom) and st.module == '__future__')):
+                        continue
+                    out.append(st)
+                return out
+            body = expand(host)
+            # a name defined (def/class) in two of the merged modules would change meaning
+            defs = {}
+            clash = False
+            for st in body:
+                if isinstance(st, (ast.FunctionDef, ast.ClassDef)):
+                    if st.name in defs:
+                        clash = True
+                    defs[st.name] = st
+            if clash:
+                continue
+            self.parsed(host).body = body
+            for x in done:
+                merged[x] = host
+                self._texts[host] = self._texts[host] + '\n' + self._texts[x]
+        for x in merged:
+            self._texts.pop(x, None)
+        return merged
+
     def _merge_private_modules(self):
         """A hand-written module that is not one of the known ones and is imported by exactly one other module, through
         top-level ``from .x import names`` statements only, is read as part of that module: its statements take the place
@@ -1145,6 +1268,8 @@ class Repo:
         rest of the analysis looks for them.  -> {merged module: host}"""
         merged = {}
         extras = [n for n in self._texts if n not in SRC_MODULES and n != '__init__']
+        merged.update(self._merge_private_module_groups(extras))
+        extras = [n for n in extras if n not in merged]
         for x in extras:
             pat = re.compile(r'^\s*(from\s+(\.|%s\.)%s\s+import|import\s+%s\.%s\b|from\s+(\.|%s)\s+import\s+.*\b%s\b)' % (PKG, re.escape(x), PKG, re.escape(x), PKG, re.escape(x)), re.M)
             hosts = [n for n, t in self._texts.items() if n != x and pat.search(t)]
